@@ -7,12 +7,36 @@ props = [json.loads(l) for l in open(os.path.join(ROOT, 'properties.jsonl'))]
 
 # property -> (technique, what the rules decide, what is not decided)
 CLAIMS = {
- 'C05': ("SSA dataflow: decoded-length taint to allocation sizes with dominating-guard (interval) discharge; call-graph SCCs with depth-guard recognition; cross-procedural parameter provenance to ParsePackage framing; loop-progress analysis on natural loops",
-         "C05.R1 no allocation sized by an unchecked decoded length; C05.R2 every recursion cycle of the decoders passes a depth bound; C05.R3 network buffers are sliced only after framing by ParsePackage (all call paths incl. UDP); C05.R5 every decoder loop consumes input or fails each iteration; C06.R1 fixed-size reads are complete or an error",
-         "the numeric allocation factor, wall-clock time, and panics from sources other than the listed sinks (general index taint C05.R4 is partially covered by R3 and C17/C18 rules)"),
+ 'C02': ("bit-provenance (known-bits) abstract interpretation of the head writer/reader; interval-set dataflow on SSA for narrowest-width ranges; three-way width agreement (writer/reader/skipper) against the wire table; conversion-chain provenance",
+         "C02.R1 head layout and escape tag, all WriteHead call sites; C02.R2 payload widths W=R=S=table; C02.R3 narrowest width/zero marker/string length form as value sets; C02.R4 sign extension and bit transport on reads; C02.R5 float bits, big-endian helpers, length fields; C02.R8 admissible wire types per reader",
+         "value-level round-trip equality for all inputs is argued from these facts, not machine-checked; stdlib bytes/binary/math are trusted"),
+ 'C04': ("interval-set dataflow over the skip switch; loop-bound/multiplier extraction; dominance of ResetDefault over reads; control dependence of not-found returns on require==false",
+         "C04.R1 skip switch exhaustive; C02.R2 skip widths; C04.R3 heads per container entry; C04.R4 un-read symmetry with the head writer; C04.R5 absent required field is an error; C04.R6 defaults installed before reading (48 generated readers)",
+         "decoded values with arbitrary interleaved unknown fields; K2 (generator skips members without explicit default in ResetDefault) is a thorough-tier generator finding"),
+ 'C05': ("SSA dataflow: decoded-length taint to allocation sizes with dominating-guard discharge; call-graph SCCs with depth-guard recognition; cross-procedural parameter provenance to ParsePackage framing; loop-progress analysis on natural loops",
+         "C05.R1 no allocation sized by an unchecked decoded length; C05.R2 every recursion cycle of the decoders passes a depth bound; C05.R3 network buffers are sliced only after framing by ParsePackage (all call paths incl. UDP); C05.R5 every decoder loop consumes input or fails each iteration; C06.R1 fixed-size reads complete or error; C07.R1 frame length classification",
+         "the numeric allocation factor, wall-clock time, and panics from operations other than the listed sinks"),
  'C06': ("SSA path analysis: must-return-error-unless-guarded over the CFG with edge-pruned reachability; structural value identity (no-CSE aware) for length guards; error-propagation analysis of every read primitive call",
-         "C06.R1 every read from the underlying bytes.Reader is complete or an error; C06.R2 Reader.Next results are used as data only under a length guard whose failing branch errors; C06.R5 errors of read primitives inside codec/tup are never dropped or overwritten",
-         "value equality with a strict reference decoder on all truncations (dynamic oracle); inadmissible wire types are decided under C02.R8"),
+         "C06.R1 every read from the underlying bytes.Reader is complete or an error; C06.R2 Reader.Next results are used as data only under a length guard whose failing branch errors; C06.R5 errors of read primitives inside codec/tup are never dropped or overwritten; C02.R8 inadmissible wire types are rejected",
+         "value equality with a strict reference decoder on all truncations (dynamic oracle)"),
+ 'C07': ("interval-set and dominating-fact analysis of the frame classifier (symbolic maximum); SSA value-identity dataflow over both receive loops (append/parse/copy/advance), loop-carried phi analysis, sibling comparison server/client",
+         "C07.R0 status tables agree; C07.R1 Full iff 4<=header<=max and complete, Less iff short/incomplete; C07.R2 F1-F5: exact bytes appended, fresh copy of cur[:L], advance by the same L, buffer dropped only when observed empty, remainder re-parsed before the next Read, error ends only this connection",
+         "behaviour of net.Conn; ordering between handler goroutines after hand-off; all chunkings are covered only through the loop's dataflow relations"),
+ 'C08': ("who-may-access analysis of the id counter over the whole program; provenance of table keys/channels via access paths; dominance (register-before-send); who-may-send on reply channels",
+         "C08.R1 ids non-zero; C08.R2 one process-wide atomic counter, no plain access or blind store; C08.R3 only generated ids on the wire; C08.R4 key types agree; C08.R5 register before send, fresh unbuffered channel, same key on delete; C08.R6 delivery only via Load(p.id) with a bounded select",
+         "interleavings of callers/sender/receiver; id reuse after 2^32 calls"),
+ 'C09': ("pairing analysis (acquire/release on all exits incl. defer and closure hand-off); context-deadline provenance through phis; bounded-wait check of every blocking select/receive/dial in the exchange cone",
+         "C09.R1 counters and pending-table entries paired on all exits (client and server); C09.R2 the exchange always runs under a deadline; C09.R3 every peer-dependent wait has a ctx.Done()/timer case, dials have timeouts; C08.R2/R5/R6 id uniqueness and late-reply handling",
+         "the numeric bound deadline+dial+slack; fault sequences; K3 is listed as a known finding"),
+ 'C10': ("field-echo dataflow with overwrite (clobber) analysis on the response packet; counted-write analysis per return of the handler closures; control-dependence on the deadline select and ping test; reaching-definition check of the outcome error; closure-capture provenance",
+         "C10.R1 identity echo in all response producers and generated dispatchers; C10.R2 one write two-way / none one-way; C10.R3 dispatch gated by not-expired and not-ping, queue-timeout code; C10.R4 outcome not replaced by filter results, error mapping; C10.R5 three versions in every section; C10.R6 handle timeout; C10.R7 receive time stamped before queueing; C07.R2 framing",
+         "request/response streams under concurrency; UDP specifics; timing"),
+ 'C11': ("who-may-store analysis of the closed flag with identity-guard dominance; call restriction for per-connection goroutines; must-pass-through (re-queue on write error, close before receiver exit); select-case inspection",
+         "C11.R1 stale closes cannot mark the client closed, per-connection goroutines close only their own connection; C11.R2 failed write re-queues, fail queue first; C11.R3 blocking dequeue watches connDone (K5 known finding); C11.R4 one receiver+sender per dial under the lock, receiver exit marks closed",
+         "latency; interleavings of sender/receiver beyond these structural conditions"),
+ 'C12': ("dominance/loop-exit analysis of close-after-drain; control dependence of the reconnect broadcast; Range-callback return analysis; join-before-release (call graph of job producers); increment-before-hand-off ordering",
+         "C12.R1 connections closed only after numInvoke==0; C12.R2 reconnect notification on both paths, to every connection, with the constant the client tests; C12.R3 Shutdown returns on drain or ctx expiry; C12.R4 producers joined before pool release (K4 known finding); C12.R5 requests counted in flight from the read; C09.R1 pairing",
+         "all interleavings of accept/receive/handler/poller; timing"),
 }
 
 checks = []
